@@ -43,16 +43,27 @@ def switch_id(sw):
 
 
 def parse_key(k):
+    if k.startswith("L"):
+        return [int(x) for x in k[1:].split(",")]
+    if k.startswith("M"):
+        m, r = [int(x) for x in k[1:].split(",")]
+        return np.arange(len(M.EPOCH_START)) % m == r
     if ":" in k:
         p = [int(x) if x else None for x in k.split(":")]
         return slice(*p)
     return int(k)
 
 
+def ref_variant(v):
+    """the plain input whose values the new input has"""
+    return "same" if v == "derived" else v
+
+
 def new_object(st, sw):
-    """a newly built analyzer for the situation after the switch"""
-    if sw[0] == "set_input":
-        return st.make(sw[1])[0]
+    """a newly built analyzer for the situation after the switch (through the keyword entry path where the
+    setting has one; on a plainly built input)"""
+    if sw[0] in ("set_input", "assign"):
+        return st.make(ref_variant(sw[1]), new=True)[0]
     if sw[0] == "param":
         return st.make(**{sw[1]: sw[2]})[0]
     if sw[0] == "slice":
@@ -66,6 +77,10 @@ def do_switch(st, obj, sw):
     if sw[0] == "set_input":
         obj.set_input(M.mk_inputs(st.kind, sw[1])[0])
         return obj
+    if sw[0] == "assign":
+        obj.reset()
+        obj.input = M.mk_inputs(st.kind, sw[1])[0]
+        return obj
     if sw[0] == "param":
         obj.reset()
         setattr(obj, sw[1], sw[2])
@@ -76,7 +91,8 @@ def do_switch(st, obj, sw):
 
 
 def assigned_cells(sw):
-    return {"set_input": ["attr.input"], "param": ["attr.%s" % sw[1]], "slice": ["attr.data"]}[sw[0]]
+    return {"set_input": ["attr.input"], "assign": ["attr.input"], "param": ["attr.%s" % sw[1]],
+            "slice": ["attr.data"]}[sw[0]]
 
 
 def changed_cells(st, g, sw):
@@ -84,6 +100,63 @@ def changed_cells(st, g, sw):
     a = M.snapshot(st.make()[0], otps, [])
     b = M.snapshot(new_object(st, sw), otps, [])
     return sorted(c for c in set(a) | set(b) if a.get(c) != b.get(c) and c.startswith("attr."))
+
+
+def slice_deletes(st, sw, names):
+    """which one-time names does slicing (the static= path of Epochs.__init__) remove from the copied instance
+    dict: every name is planted alone and all together on a parent, the parent is sliced, the child inspected;
+    a name counts as deleted only if it is gone both times"""
+    otps = M.otp_table(st.cls)
+    k = parse_key(sw[1])
+    sent = object()
+    gone = {}
+    for group in [[n] for n in otps] + [list(otps)]:
+        obj = st.make()[0]
+        for n in group:
+            obj.__dict__[n] = sent
+        child = obj[k]
+        for n in group:
+            gone[n] = gone.get(n, True) and (n not in child.__dict__)
+    return {n: gone.get(n, False) for n in names}
+
+
+# ---- reference values computed from the definition, independent of nitime (where that is cheap)
+def _x(st, sw):
+    return [np.array(np.asarray(i.data), dtype=float, order='C') for i in M.mk_inputs(st.kind, ref_variant(sw[1]))]
+
+
+def indep_refs(st, sw):
+    fam = st.family
+    if fam == "Epochs" and sw[0] == "slice":
+        k = parse_key(sw[1])
+        idx = np.arange(len(M.EPOCH_START))[k]
+        dur = np.array([(i + 1) * 10 ** 11 for i in range(len(M.EPOCH_START))], dtype=np.int64)[k]
+        start = np.array([i * 10 ** 12 for i in range(len(M.EPOCH_START))], dtype=np.int64)[k]
+        return {"duration": dur, "total": int(np.sum(dur)), "n_long": int(np.sum(dur > 25 * 10 ** 10)),
+                "first_start": int(np.atleast_1d(start)[0])}
+    if sw[0] not in ("set_input", "assign"):
+        return {}
+    if fam == "CorrelationAnalyzer":
+        return {"corrcoef": np.corrcoef(_x(st, sw)[0])}
+    if fam == "NormalizationAnalyzer":
+        x = _x(st, sw)[0]
+        m = x.mean(-1)[..., None]
+        return {"z_score": (x - m) / x.std(-1)[..., None], "percent_change": (x / m - 1) * 100}
+    if fam == "HilbertAnalyzer":
+        import scipy.signal
+        x = _x(st, sw)[0]
+        h = scipy.signal.hilbert(x)
+        return {"analytic": h, "amplitude": np.abs(h), "real": x, "imag": h.imag, "phase": np.angle(h)}
+    return {}
+
+
+def plain(v):
+    import nitime.timeseries as ts
+    if isinstance(v, ts.TimeSeriesBase):
+        return np.asarray(v.data)
+    if isinstance(v, ts.TimeInterface):
+        return np.asarray(v).astype(np.int64)
+    return v
 
 
 def fresh_new_values(st, g, sw):
@@ -96,7 +169,7 @@ def fresh_new_values(st, g, sw):
     return out, raises
 
 
-def run_case(st, g, sw, h1, h2, fresh_new):
+def run_case(st, g, sw, h1, h2, fresh_new, refs=None):
     M.Rec.reset()
     obj, _ = st.make()
     res = {"steps": []}
@@ -118,31 +191,44 @@ def run_case(st, g, sw, h1, h2, fresh_new):
         except Exception as e:  # noqa
             res["exc"] = {"at": len(res["steps"]), "name": n, "cls": type(e).__name__, "msg": str(e)[:160]}
             break
-        res["steps"].append({"fired": list(M.Rec.fired), "eq": bool(M.deep_close(v, fresh_new[n]))})
+        step = {"fired": list(M.Rec.fired), "eq": bool(M.deep_close(v, fresh_new[n]))}
+        if refs and n in refs:
+            step["def_ok"] = bool(M.deep_close(plain(v), refs[n], rtol=1e-7))
+        res["steps"].append(step)
     return res
 
 
-def case_histories(ctx, g, usable):
+def case_histories(ctx, st, g, sw, usable):
     pub = [n for n in M.public_names(g) if n in usable]
     if not pub:
         return []
     perm = list(pub)
     ctx.rng.shuffle(perm)
-    before = [[]] + [[n] for n in pub] + [perm]
-    after = [[n] for n in pub] + [list(reversed(perm))]
-    if not ctx.quick:
-        for _ in range(4):
+    small = [n for n in pub if n != "parameterlist"]
+    if len(small) <= 4:
+        # every subset of the results read before the switch
+        import itertools
+        before = [list(c) for k in range(len(small) + 1) for c in itertools.combinations(small, k)]
+        if len(small) > 1:
+            before.append(list(reversed(small)))
+    else:
+        before = [[]] + [[n] for n in pub] + [perm]
+        for _ in range(ctx.scale(4, 12)):
             p = list(pub)
             ctx.rng.shuffle(p)
-            k = ctx.rng.randint(1, len(p))
-            before.append(p[:k])
+            before.append(p[:ctx.rng.randint(2, max(2, len(p) - 1))])
+    after = [[n] for n in pub] + [list(reversed(perm))]
+    if st.heavy or (sw[0] in ("set_input", "assign") and sw[1] in ("big",)):
+        before = [[], perm] + [[n] for n in pub[-2:]]
+    if not ctx.quick:
+        for _ in range(4):
             q = list(pub)
             ctx.rng.shuffle(q)
             after.append(q)
     out = [(a, b) for a in before for b in after]
-    lim = ctx.scale(60, 600)
+    lim = ctx.scale(48, 600)
     if len(out) > lim:
-        keep = [(a, b) for a, b in out if not a or a == perm or b == list(reversed(perm))]
+        keep = [(a, b) for a, b in out if b == list(reversed(perm))]
         rest = [x for x in out if x not in keep]
         out = keep[:lim] + ctx.rng.sample(rest, max(0, min(len(rest), lim - len(keep))))
     return out
@@ -200,6 +286,11 @@ def oracle(t, h1, h2, res):
                    "refreshed: %s" % (switch_id(sw), e.get("name", "the switch"), e["cls"], stale),
                    e, "the value a newly built analyzer returns", base)
     for i, s in enumerate(res["steps"]):
+        if s.get("def_ok") is False:
+            yield Fail("C14/%s/%s/%s/definition" % (sw[0], fam, h2[i]),
+                       "after %s (read before: %s), %s differs from its definition computed independently (numpy / "
+                       "exact integers) on the new input" % (switch_id(sw), h1, h2[i]),
+                       "differs", "the value the definition gives for the new input", base)
         if not s["eq"]:
             yield Fail(key(h2[i]),
                        "after %s (read before: %s), %s differs from the value a newly built analyzer returns; "
@@ -219,7 +310,11 @@ def build_tables(ctx):
             g = graphs[st.key]
             # a private copy of the cell table per switch keeps indices stable
             gg = M.Graph()
-            gg.names, gg.nodes, gg.cells, gg.prot, gg.raises = g.names, g.nodes, list(g.cells), g.prot, g.raises
+            gg.names, gg.cells, gg.prot, gg.raises = g.names, list(g.cells), g.prot, g.raises
+            gg.nodes = {n: dict(nd) for n, nd in g.nodes.items()}
+            if sw[0] == "slice":
+                for n, d in slice_deletes(st, sw, g.names).items():
+                    gg.nodes[n]["resets"] = d
             t = {"st": st, "sw": sw, "g": gg, "assigned": assigned_cells(sw)}
             try:
                 t["changed"] = changed_cells(st, gg, sw)
@@ -272,9 +367,10 @@ def run(ctx):
         fresh_new, raises = fresh_new_values(st, g, sw)
         usable = set(fresh_new)
         hs = [(a, b) for a, b in corpus_cases(st.key, switch_id(sw))
-              if all(n in usable for n in a + b)] + case_histories(ctx, g, usable)
+              if all(n in usable for n in a + b)] + case_histories(ctx, st, g, sw, usable)
+        refs = indep_refs(st, sw)
         for h1, h2 in hs:
-            res = run_case(st, g, sw, h1, h2, fresh_new)
+            res = run_case(st, g, sw, h1, h2, fresh_new, refs)
             c = Case(case_coq(ti, g, h1, h2, res),
                      {"setting": st.key, "switch": switch_id(sw), "before": h1, "after": h2, "observed": res},
                      "%s/%s" % (st.family, switch_id(sw)), nontrivial=bool(h1))
@@ -312,7 +408,7 @@ def replay(ctx, path):
     tabs = [t for t in build_tables(ctx) if t["st"].key == c["setting"] and switch_id(t["sw"]) == c["switch"]]
     t = tabs[0]
     fresh_new, _ = fresh_new_values(t["st"], t["g"], t["sw"])
-    res = run_case(t["st"], t["g"], t["sw"], c["before"], c["after"], fresh_new)
+    res = run_case(t["st"], t["g"], t["sw"], c["before"], c["after"], fresh_new, indep_refs(t["st"], t["sw"]))
     fails = list(oracle(t, c["before"], c["after"], res))
     print(json.dumps({"setting": c["setting"], "switch": c["switch"], "before": c["before"], "after": c["after"],
                       "observed": res, "fails": [[f.key, f.what] for f in fails]}, indent=1, default=str))
